@@ -215,6 +215,7 @@ class MBuild:
         self.setup_fail = {}     # key (abs target | sb key) -> exception instance, or
         #                          (key, ordinal) -> exception for the n-th call with that key
         self.call_counts = {}
+        self.fixed = set()       # outputs written by a timestamp-preserving generator
         for a in reversed(ancestors(model.cache)):
             if a not in self.v:
                 self.v[a] = ('d',)
@@ -264,12 +265,16 @@ class MBuild:
         self.inprog.add(p)
         return clobbered
 
-    def user_write(self, p, data):
+    def user_write(self, p, data, fixed_stamp=False):
         if p not in self.inprog:
             raise AssertionError('program writes outside its own build_file: %s' % p)
         if len(os.fsencode(os.path.basename(p))) > NAME_MAX:
             raise OSError(errno.ENAMETOOLONG, 'File name too long', p)
         self.pending[p] = data
+        if fixed_stamp:
+            self.fixed.add(p)
+        else:
+            self.fixed.discard(p)
 
     def fail_file(self, p):
         self.inprog.discard(p)
@@ -536,7 +541,7 @@ class MBuilder:
                     mb.v[p] = mb.m.disk[p]
                     node.out = cmpval(mb.v[p], node.cmp)
                 else:
-                    mb.v[p] = ('f', content, Stamp.fresh())
+                    mb.v[p] = ('f', content, ('fixed', p) if p in mb.fixed else Stamp.fresh())
                     node.out = cmpval(mb.v[p], node.cmp)
                 node.fresh_content = content
                 mb.done_files[p] = node
